@@ -24,6 +24,7 @@ pub struct Arena {
     slack_lo: usize,
     slack_hi: usize,
     canary_seed: u64,
+    readonly: bool,
 }
 
 unsafe impl Send for Arena {}
@@ -43,22 +44,29 @@ impl Arena {
         #[cfg(not(miri))]
         {
             let map_len = (data_pages + 2) * PAGE;
-            let base = unsafe {
-                libc::mmap(
-                    core::ptr::null_mut(),
-                    map_len,
-                    libc::PROT_READ | libc::PROT_WRITE,
-                    libc::MAP_PRIVATE | libc::MAP_ANONYMOUS,
-                    -1,
-                    0,
-                )
+            let pooled = POOL.with(|p| p.borrow_mut().get_mut(&data_pages).and_then(|v| v.pop()));
+            let base = match pooled {
+                Some(b) => b as *mut u8,
+                None => {
+                    let base = unsafe {
+                        libc::mmap(
+                            core::ptr::null_mut(),
+                            map_len,
+                            libc::PROT_READ | libc::PROT_WRITE,
+                            libc::MAP_PRIVATE | libc::MAP_ANONYMOUS,
+                            -1,
+                            0,
+                        )
+                    };
+                    assert!(base != libc::MAP_FAILED, "mmap failed");
+                    let base = base as *mut u8;
+                    unsafe {
+                        assert_eq!(libc::mprotect(base as *mut _, PAGE, libc::PROT_NONE), 0);
+                        assert_eq!(libc::mprotect(base.add(map_len - PAGE) as *mut _, PAGE, libc::PROT_NONE), 0);
+                    }
+                    base
+                }
             };
-            assert!(base != libc::MAP_FAILED, "mmap failed");
-            let base = base as *mut u8;
-            unsafe {
-                assert_eq!(libc::mprotect(base as *mut _, PAGE, libc::PROT_NONE), 0);
-                assert_eq!(libc::mprotect(base.add(map_len - PAGE) as *mut _, PAGE, libc::PROT_NONE), 0);
-            }
             let acc = data_pages * PAGE;
             let off = match side {
                 Side::Right => PAGE + acc - len,
@@ -68,7 +76,7 @@ impl Arena {
                 Side::Right => (acc - len, 0),
                 Side::Left => (0, acc - len),
             };
-            let a = Arena { base, map_len, off, len, slack_lo, slack_hi, canary_seed: seed };
+            let a = Arena { base, map_len, off, len, slack_lo, slack_hi, canary_seed: seed, readonly: false };
             unsafe {
                 for i in 0..acc {
                     *base.add(PAGE + i) = canary_byte(seed, i);
@@ -79,8 +87,13 @@ impl Arena {
         #[cfg(miri)]
         {
             let _ = (side, data_pages);
-            let store: Vec<u8> = (0..len).map(|i| canary_byte(seed, i)).collect();
-            Arena { store, off: 0, len, slack_lo: 0, slack_hi: 0, canary_seed: seed }
+            // 64-byte aligned start inside an over-allocated vector (Miri checks real addresses)
+            let mut store: Vec<u8> = vec![0u8; len + 64];
+            let off = store.as_ptr().align_offset(64);
+            for i in 0..len {
+                store[off + i] = canary_byte(seed, i);
+            }
+            Arena { store, off, len, slack_lo: 0, slack_hi: 0, canary_seed: seed, readonly: false }
         }
     }
 
@@ -101,7 +114,7 @@ impl Arena {
         }
         #[cfg(miri)]
         {
-            self.store.as_ptr()
+            unsafe { self.store.as_ptr().add(self.off) }
         }
     }
     pub fn as_mut_ptr(&mut self) -> *mut u8 {
@@ -111,7 +124,7 @@ impl Arena {
         }
         #[cfg(miri)]
         {
-            self.store.as_mut_ptr()
+            unsafe { self.store.as_mut_ptr().add(self.off) }
         }
     }
     pub fn as_slice(&self) -> &[u8] {
@@ -123,6 +136,7 @@ impl Arena {
 
     /// Make the accessible pages read-only (inputs) or read-write again.
     pub fn set_readonly(&mut self, ro: bool) {
+        self.readonly = ro;
         #[cfg(not(miri))]
         unsafe {
             let prot = if ro { libc::PROT_READ } else { libc::PROT_READ | libc::PROT_WRITE };
@@ -174,11 +188,39 @@ impl Arena {
     }
 }
 
+#[cfg(not(miri))]
+thread_local! {
+    /// per-thread pool of mappings (guard pages already in place), keyed by data page count
+    static POOL: std::cell::RefCell<std::collections::HashMap<usize, Vec<usize>>> = std::cell::RefCell::new(Default::default());
+}
+
 impl Drop for Arena {
     fn drop(&mut self) {
         #[cfg(not(miri))]
-        unsafe {
-            libc::munmap(self.base as *mut _, self.map_len);
+        {
+            if self.readonly {
+                self.set_readonly(false);
+            }
+            let data_pages = self.map_len / PAGE - 2;
+            let base = self.base as usize;
+            let kept = data_pages <= 4
+                && POOL
+                    .try_with(|p| {
+                        let mut p = p.borrow_mut();
+                        let v = p.entry(data_pages).or_default();
+                        if v.len() < 96 {
+                            v.push(base);
+                            true
+                        } else {
+                            false
+                        }
+                    })
+                    .unwrap_or(false);
+            if !kept {
+                unsafe {
+                    libc::munmap(self.base as *mut _, self.map_len);
+                }
+            }
         }
     }
 }
